@@ -1,5 +1,6 @@
 import MgModel.Common.Driver
 import MgModel.C16.Async
+import MgModel.C16.SyncConc
 open MgModel MgModel.C16 MgModel.Driver MgModel.Conc
 
 /-! Line-protocol driver for C16 (see harness/c16/seq_log.c for the ops).
@@ -147,6 +148,17 @@ def asyncGroups (hs0 : List Handler) (ms : List Msg) : List (List String) × Lis
       ((acc.1.zip g).map (fun (a, b) => a ++ b), hs')
     | .error _ => acc) (hs0.map (fun _ => []), hs0)
 
+/-- the same call through the interleaving model of the synchronous logger with one thread
+(run to completion): must give what `syncLog` gives -/
+def viaConc (lg : Logger) (e : Env) (c : Call) : List (List Rec) :=
+  let rec go (s : SState) : Nat → SState
+    | 0 => s
+    | f + 1 => match sstep s ⟨0, .none⟩ with
+      | some (s', _) => go s' f
+      | none => s
+  let s := go (sinit .fixed lg 1 (fun _ => [(e, c)])) (8 * (lg.handlers.length + 2))
+  (List.range lg.handlers.length).map s.outs
+
 def stepLine (st : St) : List String → St × String
   | ["logger", "sync"] =>
     if st.mode ≠ 0 then (st, "bad-op") else ({ st with mode := 1, lg := {} }, "ok")
@@ -207,6 +219,7 @@ def stepLine (st : St) : List String → St × String
         let model := showGroups (addRets (newRecs st.lg.handlers lg'.handlers)
                         (if rs.isEmpty then st.lg.handlers.map (fun _ => none) else rs))
         let spec := showGroups (specGroups st.lg.handlers [mkMsg st.lg st.env c])
+        if viaConc st.lg st.env c != lg'.handlers.map (·.out) then (st, "sstep-differs-from-syncLog") else
         ({ st with lg := lg' }, if wfB st.lg then s!"{model} | {spec}" else model)
     | _, some c0 =>
       let c := { c0 with level := (Int.toInt32 c0.level).toInt }
